@@ -50,6 +50,14 @@ CHECKS = {
         "(sys.monitoring failpoints), nested and orphan-object histories; results compared at 1e-9.",
    note="solver assumed deterministic for bit-identical input; histories are sampled",
    tech="offline checker over recorded wrapper-boundary dumps, fresh-process reference vs fault-injected in-process histories"),
+ "C13": dict(cat="exploration", ref="DESIGN 3/C13",
+   text="Schedules of 2-4 solves on one problem object interleaved with edits, option changes, injected solver failures and "
+        "evaluations; after each finite re-solve the C01/C02 oracles run against the latest solution, and the multiset of "
+        "functionals/LMIs crossing the wrapper boundary, the Gram size and the returned value are compared with a freshly built "
+        "equivalent model run in another interpreter; after a re-solve without value accessors must raise.",
+   note="fresh equivalent = declarations+edits replayed without earlier solves; objects removed from the model by an edit are "
+        "outside the statement; thresholds DESIGN 2.8",
+   tech="runtime monitor of per-solve wrapper-boundary data + fresh-process reference model + accessor oracles"),
 }
 NOT_YET = {}
 
